@@ -16,6 +16,12 @@ CLAIMED = {
  "C18": ("corr-pure", "Lean 4 theorems by induction over the source list for every oracle + correspondence with random.shuffle/randint replaced by the same oracle",
          "Every source exactly once, destinations within dest_set, per-destination counts differ by <= 1 (evenly) resp. <= max_connects, returned set = connected destinations, never fails when the destinations have room: theorems for all sizes and every outcome of the random draws.",
          "random.shuffle is modelled as Fisher-Yates over oracle draws (proved to be a permutation), randint as a draw reduced to its range; destinations pairwise distinct. Trusted: Lean kernel, correspondence harness."),
+ "C11": ("corr-pure", "Lean 4 theorems (decision logic stated outright, longest-common-prefix characterisation of the shared group) + correspondence of World.connect incl. the tables it leaves behind",
+         "connect_one rejects exactly in the four documented cases (iff), a rejected pair leaves the world unchanged, the delay's cutoff is the depth of the innermost common group (siblings share only the parent), tiers carry shift and weak step: theorems for arbitrary group trees. Correspondence: group_path/connect_interval on 7 group positions, World.connect over attribute classes x flags x initial data x async x cache x all placements of 5 simulators, comparing accept/reject and all connection tables.",
+         "One model per simulator in the generated worlds; groups identified by path. Trusted: Lean kernel, correspondence harness."),
+ "C15": ("corr-pure", "Lean 4 theorems (decision logic of init_and_get_adapter / LocalProxy.init / adapters stated outright) + correspondence against stub simulators recording the requests they receive",
+         "Rejection iff (>= 4, explicit mismatch, v3 claim without v3 signatures); < 3 => step has exactly 2 args and type defaults to time-based; < 2.2 => no setup_done; >= 3 => every request unchanged; time_resolution only when the signatures take it: theorems for versions of any length. Correspondence on in-process stubs over version strings x explicit settings x signature shapes.",
+         "Remote transport is modelled (isLocal=false) but exercised only in-process; version strings numeric. Trusted: Lean kernel, correspondence harness, mosaik_api_v3.check_api_compliance as modelled."),
 }
 
 NOT_YET = {
